@@ -221,6 +221,13 @@ def _prepare_api_config(
             # Just needed to set name
             pass
 
+    if api_version.count("/") > 1 or "/" in kind or "." in kind or not kind.isidentifier():
+        # kr8s would mis-parse these (and a class with such a version breaks
+        # every later `get_class` call in the process).
+        return PermFail(
+            message=f"`spec.apiConfig.apiVersion` ('{api_version}') / `kind` ('{kind}') is not a valid group/version or kind"
+        )
+
     try:
         resource_api = kr8s.objects.get_class(
             version=api_version,
@@ -228,13 +235,18 @@ def _prepare_api_config(
             _asyncio=True,
         )
     except KeyError:
-        resource_api = kr8s.objects.new_class(
-            version=api_version,
-            kind=kind,
-            plural=plural,
-            namespaced=namespaced,
-            asyncio=True,
-        )
+        try:
+            resource_api = kr8s.objects.new_class(
+                version=api_version,
+                kind=kind,
+                plural=plural,
+                namespaced=namespaced,
+                asyncio=True,
+            )
+        except (ValueError, UnicodeError) as err:
+            return PermFail(message=f"Invalid `spec.apiConfig`: {err}")
+    except ValueError as err:
+        return PermFail(message=f"Invalid `spec.apiConfig`: {err}")
     return (resource_api, resource_id, owned, readonly, delete_if_exists)
 
 
